@@ -290,6 +290,124 @@ def run(ctx):
         others = [c for c in rp.calls if c.name in ("clear", "split_to", "split_off", "truncate", "split") and describe_operand(rp, c.args[0]) == "buffer"]
         r.check(not others, "run_parser/no-other-consumption", where(rp), "the buffer is consumed only by that advance", "run_parser also calls buffer.%s" % [c.name for c in others])
 
+    with ctx.rule("C09.R3b", "T6", "the incremental parser never decides a token before its end is in sight; the final-segment parser never asks for more", floor=5) as r:
+        # reference graph over swimos_recon: direct callees and function items passed to combinators
+        def refs(b):
+            out = []
+
+            def walk(x, in_complete):
+                if isinstance(x, dict):
+                    f = x.get("fn")
+                    if isinstance(f, dict) and f.get("def"):
+                        out.append((f["def"], in_complete))
+                    for v in x.values():
+                        walk(v, in_complete)
+                elif isinstance(x, list):
+                    for v in x:
+                        walk(v, in_complete)
+            for c in b.calls:
+                if c.defpath:
+                    out.append((c.defpath, False))
+                wrapped = (c.defpath or "").endswith("nom::combinator::complete")
+                for a in c.args:
+                    walk(a, wrapped)
+            for i, j, p_, rv, line in b.assigns():
+                walk(rv, False)
+            return out
+        bodies = {}
+        for b in rc.all_bodies():
+            bodies.setdefault(b.defpath, b)
+
+        def reach(root_pred):
+            roots = [b for d, b in bodies.items() if root_pred(d)]
+            if not roots:
+                raise AnchorMissing("no parse root")
+            seen, edges, work = {}, [], list(roots)
+            for b in roots:
+                seen[b.defpath] = None
+            while work:
+                b = work.pop()
+                targets = refs(b) + [(d, False) for d in bodies if d.startswith(b.defpath + "::{closure")]
+                for d, wrapped in targets:
+                    edges.append((b.defpath, d, wrapped))
+                    if d in bodies and d not in seen:
+                        seen[d] = b.defpath
+                        work.append(bodies[d])
+            return roots, seen, edges
+
+        def chain(seen, d):
+            out = [d]
+            while seen.get(out[-1]) is not None:
+                out.append(seen[out[-1]])
+            return " <- ".join("::".join(x.split("::")[-2:]) for x in out)
+        roots, seen, edges = reach(lambda d: "IncrementalReconParser" in d and d.endswith("::parse") and " as " in d and "Parser" in d)
+        for b in roots:
+            ctx.saw(b)
+        bad = sorted({(a, d) for a, d, w in edges if a in seen and "tokens::complete::" in d})
+        r.check(len(seen) >= 15, "incremental/scope", where(roots[0]), "%d functions reachable from IncrementalReconParser::parse" % len(seen))
+        r.check(not bad, "incremental/only-streaming-token-forms", where(bodies[bad[0][0]]) if bad else where(roots[0]),
+                "no function reachable from IncrementalReconParser::parse uses a complete-input token parser: a token that reaches the end of the chunk is Incomplete, not finished",
+                "%s uses %s, which treats the end of the chunk as the end of the token: a top-level identifier, number or blob cut in the middle is decoded from its prefix ('abcd' in two reads gives 'ab'); path: %s" % (
+                    bad[0][0].split("recon_parser::")[-1], bad[0][1].split("tokens::")[-1], chain(seen, bad[0][0])) if bad else "")
+        froots, fseen, fedges = reach(lambda d: "FinalSegmentParser" in d and d.endswith("::parse") and " as " in d and "Parser" in d)
+        for b in froots:
+            ctx.saw(b)
+
+        def streaming(d):
+            return "::streaming::" in d or d.endswith("tokens::string_literal") or d.endswith("tokens::separator")
+        fbad = sorted({(a, d) for a, d, w in fedges if a in fseen and streaming(d) and not w and "record::" in a})
+        r.check(len(fseen) >= 5, "final/scope", where(froots[0]), "%d functions reachable from FinalSegmentParser::parse" % len(fseen))
+        r.check(not fbad, "final/no-unwrapped-streaming-parser", where(bodies[fbad[0][0]]) if fbad else where(froots[0]),
+                "every streaming parser used at the end of the input is wrapped in nom::combinator::complete (Incomplete would make `finish()` panic)",
+                "%s uses the streaming parser %s at the end of the input: an unterminated token makes it return Incomplete, on which `finish()` panics" % (fbad[0][0].split("recon_parser::")[-1], fbad[0][1].split("::")[-1]) if fbad else "")
+        # which states can end the input: the final parser must accept, for each, everything the printers can put there
+        an = bodies.get("swimos_recon::recon_parser::record::attr_name")
+        anf = bodies.get("swimos_recon::recon_parser::record::attr_name_final")
+        if an is None or anf is None:
+            raise AnchorMissing("record::attr_name / attr_name_final")
+        ctx.saw(an), ctx.saw(anf)
+        kinds = lambda b: sorted({"string" if d.endswith("string_literal") else "identifier" for d, w in refs(b) if d.endswith("string_literal") or d.endswith("::identifier")})
+        r.check(kinds(an) == kinds(anf), "attr_name_final/accepts-what-attr_name-accepts", where(anf), "an attribute name at the end of the input may be %s, as anywhere else" % " or ".join(kinds(anf)),
+                "attr_name accepts %s but attr_name_final only %s: `@\"two words\"` (what the printers write for a record ending in such an attribute) does not parse" % (kinds(an), kinds(anf)))
+
+    with ctx.rule("C09.R3c", "T5", "a decoder that wraps RecognizerDecoder tells it when the input has ended", floor=3) as r:
+        # RecognizerDecoder::decode cannot finish a value that is only complete at the end of the input (a top-level scalar, a record that
+        # ends in an attribute): that is decode_eof's job. A wrapper that forwards only decode inherits tokio's default decode_eof
+        # (= decode, then "bytes remaining on stream").
+        eofs, decs = {}, {}
+        for cn in ctx.facts.crates():
+            cr = ctx.crate(cn)
+            for b in cr.all_bodies():
+                d = b.defpath
+                if "{closure" in d:
+                    continue
+                if d.endswith("Decoder>::decode_eof"):
+                    eofs[d[1:].split(" as ")[0].split("<")[0]] = b
+                elif d.endswith("Decoder>::decode"):
+                    decs[d[1:].split(" as ")[0].split("<")[0]] = b
+        if not any(k.endswith("RecognizerDecoder") for k in eofs):
+            raise AnchorMissing("RecognizerDecoder::decode_eof")
+        n = 0
+        for ty, b in sorted(decs.items()):
+            inner = set()
+            for c in b.calls:
+                if c.name in ("decode", "decode_eof") and c.defpath and c.defpath.startswith("<") and "Decoder>::" in c.defpath:
+                    it = c.defpath[1:].split(" as ")[0].split("<")[0]
+                    if it in eofs and it != ty:
+                        inner.add(it)
+            for it in sorted(inner):
+                n += 1
+                ctx.saw(b)
+                own = eofs.get(ty)
+                calls_eof_here = any(c.name == "decode_eof" and (c.defpath or "").startswith("<" + it) for c in b.calls)
+                calls_eof_own = own is not None and any(c.name == "decode_eof" and (c.defpath or "").startswith("<" + it) for c in own.calls)
+                if own is not None:
+                    ctx.saw(own)
+                r.check(calls_eof_here or calls_eof_own, "%s/ends-%s" % (ty.split("::")[-1], it.split("::")[-1]), where(own or b),
+                        "%s::%s calls %s::decode_eof" % (ty.split("::")[-1], "decode_eof" if calls_eof_own else "decode", it.split("::")[-1]),
+                        "%s forwards decode to %s but never decode_eof: a body that is only complete at its end (`@unit`, `@a b`, a bare number once the parser is strictly incremental) is rejected with 'bytes remaining on stream'" % (ty, it.split("::")[-1]))
+        r.check(n >= 2, "scope/wrappers", "-", "%d decoders delegate to a decoder with its own decode_eof" % n)
+
     with ctx.rule("C09.R5", "T9", "panic audit: parser, decoder, literal and recognizer modules", floor=15) as r:
         ALLOW = {
             ("unescape", "unwrap", "to_digit"): "to_digit(16) after is_ascii_hexdigit(c)",
